@@ -1462,7 +1462,15 @@ def coq_split(splits):
             pres = ["1 <= %s" % in_names[x] for x in inputs if x == s["total"][1] or x == NUM_THREADS_KEY]
             hyp = "".join(p + " -> " for p in pres)
             app = lambda n, idx=False: "(%s%s %s%s)" % (pre, n, ins_s, (" " + pvn) if idx else "")
-            obligations.append({"name": "s%d_tiles" % k, "site": k, "kind": "tiles",
+            nh = len(pres)
+            cor = ("Corollary s%d_sum_is_sequential :\n  forall (A : Type) (op : A -> A -> A) (e0 : A),\n"
+                   "    (forall a b c, op (op a b) c = op a (op b c)) -> (forall a b, op a b = op b a) -> (forall a, op a e0 = a) ->\n"
+                   "  forall (f : nat -> A) (%s : nat) res, %s\n"
+                   "    merge_run A op e0 (map (split_partial A op e0 f (%slo %s) (%shi %s)) (seq 0 %s)) res ->\n"
+                   "    res = fold_left op (map f (seq 0 %s)) e0.\n"
+                   "Proof. intros A op e0 H1 H2 H3 f %s res%s. apply (split_sum_is_sequential A op e0 H1 H2 H3 f). apply s%d_tiles; assumption. Qed.\n") % (
+                       k, ins_s, hyp, pre, ins_s, pre, ins_s, app("bound"), app("total"), ins_s, "".join(" P%d" % i for i in range(nh)), k)
+            obligations.append({"name": "s%d_tiles" % k, "site": k, "kind": "tiles", "corollary": cor,
                                 "stmt": "forall %s : nat, %stiles 0 %s %s (%slo %s) (%shi %s)" % (ins_s, hyp, app("total"), app("bound"), pre, ins_s, pre, ins_s)})
             sc = side_conditions(sf, [s["bound"], s["lo"], s["hi"], s["total"]])
             conj = []
@@ -1517,7 +1525,16 @@ def coq_split(splits):
             hint_names += R1.names + R2.names
             ntn = in_names[NUM_THREADS_KEY]
             hyp = "1 <= %s -> " % ntn
-            obligations.append({"name": "s%d_slices" % k, "site": k, "kind": "slices",
+            cor = ("Corollary s%d_threads_never_share_a_cell :\n  forall %s : nat, %sforall %s %s, %s < (%souter %s) -> %s < %s ->\n"
+                   "    (forall i, (%slo %s %s %s) <= i < (%shi %s %s %s) -> i < (%scap %s) /\\ (%sm_lo %s %s) <= i < (%sm_hi %s %s)) /\\\n"
+                   "    (forall p' t' i, p' < (%souter %s) -> t' < %s -> (%slo %s %s %s) <= i < (%shi %s %s %s) ->\n"
+                   "       (%slo %s p' t') <= i < (%shi %s p' t') -> %s = p' /\\ %s = t').\n"
+                   "Proof. intros %s Hnt. destruct (s%d_slices %s Hnt) as [_ T2]. exact (tiles2_slices_disjoint _ _ _ _ _ _ _ T2). Qed.\n") % (
+                       k, ins_s, hyp, pn, tn, pn, pre, ins_s, tn, ntn,
+                       pre, ins_s, pn, tn, pre, ins_s, pn, tn, pre, ins_s, pre, ins_s, pn, pre, ins_s, pn,
+                       pre, ins_s, ntn, pre, ins_s, pn, tn, pre, ins_s, pn, tn,
+                       pre, ins_s, pre, ins_s, pn, tn, ins_s, k, ins_s)
+            obligations.append({"name": "s%d_slices" % k, "site": k, "kind": "slices", "corollary": cor,
                                 "stmt": "forall %s : nat, %s(%sm_outer %s) = (%souter %s) /\\\n    tiles2 (%scap %s) (%souter %s) %s (%sm_lo %s) (%sm_hi %s) (%slo %s) (%shi %s)" % (
                                     ins_s, hyp, pre, ins_s, pre, ins_s, pre, ins_s, pre, ins_s, ntn, pre, ins_s, pre, ins_s, pre, ins_s, pre, ins_s)})
             sc1 = side_conditions(sf, t1); sc2 = side_conditions(sf, t2)
